@@ -36,8 +36,12 @@ def check(run, driver):
         metric = METRICS[it % 3]
         mix = rng.standard_normal((dx + dy + dz, dx + dy + dz)) * (it % 4 != 0) + np.eye(dx + dy + dz)
         W = rng.standard_normal((N, dx + dy + dz)) @ mix * float(10 ** rng.uniform(-2, 2))
-        if it % 5 == 4:     # data that are not mean-centred: large common offset relative to the spread
-            W = W + float(10 ** rng.uniform(4, 7)) * rng.choice([-1.0, 1.0], size=dx + dy + dz)
+        if it % 5 >= 3:     # data that are not mean-centred: large common offset relative to the spread (both paths, Euclidean metric)
+            metric = "euclidean"
+            if it % 5 == 3:
+                dz = 0
+            W = W[:, :dx + dy + dz]
+            W = W + float(np.abs(W).max()) * float(10 ** rng.uniform(5, 8)) * rng.choice([-1.0, 1.0], size=dx + dy + dz)
         X, Y, Z = W[:, :dx], W[:, dx:dx + dy], (W[:, dx + dy:] if dz else None)
         X0, Y0 = X.copy(), Y.copy()
         if Z is None:
